@@ -452,6 +452,186 @@ fn explore_annealer_from_all(st: &mut Stats, n: usize, edges: &[(usize, usize)],
     }
 }
 
+
+fn disagreement_graphs() -> Vec<(&'static str, Vec<(usize, usize)>)> {
+    let cyc = |n: usize| (0..n).map(|i| (i.min((i + 1) % n), i.max((i + 1) % n))).collect::<Vec<_>>();
+    let mut cube = vec![];
+    for a in 0..8usize {
+        for b in a + 1..8 {
+            if (a ^ b).count_ones() == 1 {
+                cube.push((a, b));
+            }
+        }
+    }
+    let mut k44 = vec![];
+    for a in 0..4 {
+        for b in 4..8 {
+            k44.push((a, b));
+        }
+    }
+    let mut wagner = cyc(8);
+    for i in 0..4 {
+        wagner.push((i, i + 4));
+    }
+    vec![
+        ("sparse-9-edges", vec![(0, 4), (0, 7), (1, 3), (1, 4), (2, 6), (3, 4), (3, 5), (4, 6), (5, 6)]),
+        ("cycle", cyc(8)),
+        ("cube", cube),
+        ("K4,4", k44),
+        ("wagner", wagner),
+        ("two-K4-bridge", vec![(0, 1), (0, 2), (0, 3), (1, 2), (1, 3), (2, 3), (4, 5), (4, 6), (4, 7), (5, 6), (5, 7), (6, 7), (3, 4)]),
+        ("matching", vec![(0, 1), (2, 3), (4, 5), (6, 7)]),
+        ("path", (0..7).map(|i| (i, i + 1)).collect()),
+    ]
+}
+
+/// every cubic tree on n labelled leaves (n >= 3), built through the public constructors: (2n-5)!! trees
+fn all_trees(n: usize) -> Vec<DecompTree> {
+    // abstract form: adjacency lists; node kinds: Some(v) leaf, None interior
+    type Abs = (Vec<Option<usize>>, Vec<Vec<usize>>);
+    let mut cur: Vec<Abs> = vec![(vec![None, Some(0), Some(1), Some(2)], vec![vec![1, 2, 3], vec![0], vec![0], vec![0]])];
+    for v in 3..n {
+        let mut next = vec![];
+        for (kind, adj) in &cur {
+            for a in 0..adj.len() {
+                for &b in &adj[a] {
+                    if a < b {
+                        let (mut k2, mut a2) = (kind.clone(), adj.clone());
+                        let x = k2.len();
+                        let l = x + 1;
+                        k2.push(None);
+                        k2.push(Some(v));
+                        for y in a2[a].iter_mut() {
+                            if *y == b {
+                                *y = x;
+                            }
+                        }
+                        for y in a2[b].iter_mut() {
+                            if *y == a {
+                                *y = x;
+                            }
+                        }
+                        a2.push(vec![a, b, l]);
+                        a2.push(vec![x]);
+                        next.push((k2, a2));
+                    }
+                }
+            }
+        }
+        cur = next;
+    }
+    cur.into_iter()
+        .map(|(kind, adj)| {
+            let mut t = DecompTree::new();
+            for i in 0..kind.len() {
+                match kind[i] {
+                    Some(v) => {
+                        t.add_leaf(adj[i][0], v);
+                    }
+                    None => {
+                        t.add_interior([adj[i][0], adj[i][1], adj[i][2]]);
+                    }
+                }
+            }
+            t
+        })
+        .collect()
+}
+
+/// Two-phase search for the annealer's "no wider than the start" clause where score and width disagree.
+/// Phase 1: from every cubic tree on the graph's vertices, every single move (all draws enumerated) is applied and the
+/// states from which some move lowers the score while raising the width are collected (the only states from which one
+/// accepted move can make "best score" and "best width" differ). Phase 2: the real annealer is started from each of
+/// them (new_with_decomp), `iterations` iterations, every draw enumerated, adaptive cooling on/off.
+fn explore_annealer_disagreement(st: &mut Stats, n: usize, edges: &[(usize, usize)], trees: &[DecompTree], iterations: usize, max_states: usize) {
+    let g = make_graph(n, edges);
+    st.inc("cases");
+    let es = edges.to_vec();
+    let mut interesting: Vec<(usize, DecompTree, usize)> = vec![];
+    for (ti, t0) in trees.iter().enumerate() {
+        st.inc("states");
+        let mut a = t0.clone();
+        let (w0, s0) = (a.rankwidth(&g), a.rankwidth_score(&g));
+        let mut found = false;
+        for mv in ["leaf_swap", "local_swap", "subtree_move"] {
+            let base = t0.clone();
+            let gg = g.clone();
+            explore(
+                if mv == "subtree_move" { 2 } else { 8 },
+                usize::MAX,
+                100_000,
+                || {
+                    let mut t2 = base.clone();
+                    apply_move(&mut t2, mv, &gg);
+                    (t2.rankwidth(&gg), t2.rankwidth_score(&gg))
+                },
+                |e| {
+                    st.inc("transitions");
+                    if let RunEnd::Done((w, s)) = e.end {
+                        if s < s0 && w > w0 {
+                            found = true;
+                        }
+                    }
+                },
+            );
+            if found {
+                break;
+            }
+        }
+        if found {
+            st.inc("score_down_width_up_states");
+            if interesting.len() < max_states {
+                interesting.push((ti, t0.clone(), w0));
+            }
+        }
+    }
+    for (ti, t0, _) in interesting {
+        let Ok((w0, _, _)) = analyse(&t0, n, &es) else { continue };
+        for adaptive in [true, false] {
+            let mut results = vec![];
+            let gg = g.clone();
+            let tt = t0.clone();
+            // one iteration = operator draw, the move's draws, possibly the acceptance draw; a subtree move whose first
+            // random pair is too close draws again from the same ranges: that retry round is cut (4th draw with a range > 3)
+            set_prune(Some(|trace, n, is_bool| trace.len() >= 3 && !is_bool && n > 3));
+            let (_, complete) = explore(
+                8,
+                usize::MAX,
+                400_000,
+                || {
+                    let mut a = RankwidthAnnealer::new_with_decomp(gg.clone(), tt.clone(), ScriptedRng);
+                    a.set_iterations(iterations).set_adaptive_cooling(adaptive);
+                    a.run()
+                },
+                |e| results.push((e.script, e.end)),
+            );
+            set_prune(None);
+            if !complete {
+                st.inc("run_cap_hit");
+            }
+            for (script, end) in results {
+                st.inc("evaluations");
+                st.inc("transitions");
+                let w = || json!({"kind": "annealer-tree", "n": n, "edges": es, "tree_index": ti, "iterations": iterations, "adaptive": adaptive, "script": script});
+                match end {
+                    RunEnd::DrawLimit => st.inc("pruned_retry_rounds"),
+                    RunEnd::Panic(p) => st.violation(Violation { sig: format!("annealer-from|panic|{}", site_of(&p)), detail: p, witness: w() }),
+                    RunEnd::Done(out) => match analyse(&out, n, &es) {
+                        Err(e) => st.violation(Violation { sig: "annealer-from|invalid-result".into(), detail: e, witness: w() }),
+                        Ok((width, _, _)) => {
+                            if width > w0 {
+                                st.violation(Violation { sig: "annealer-from|wider-than-start".into(), detail: format!("start tree {:?} has width {}, the annealer returned {:?} with width {}", t0.nodes, w0, out.nodes, width), witness: w() });
+                            } else {
+                                st.inc("nontrivial");
+                            }
+                        }
+                    },
+                }
+            }
+        }
+    }
+}
+
 pub fn run(rep: &mut Report) {
     rep.rule = "state = decomposition tree exactly as stored (node array with neighbour order, leaf / interior index lists, cached ranks); transition = one move of the annealer's repertoire under one complete sequence of RNG answers (every announced draw enumerated), or a width / score query that fills the cache; invariants in every state: cubic tree whose leaves are exactly the vertices, is_valid_for_graph, every cached rank = brute-force cut rank, reported width/score = recomputed = brute force; non-trivial = move executed and all invariants held".into();
     rep.assume("RNG draws are owned through the announce hook and a scripted RngCore, calibrated against rand 0.9 at start-up; a subtree move whose first random pair is rejected is cut after one round (the retry offers exactly the same choices)");
@@ -547,6 +727,30 @@ pub fn run(rep: &mut Report) {
         let stats = results.into_iter().fold(Stats::default(), Stats::merge);
         rep.absorb("annealer from every tree", &format!("{} graph classes on 5 vertices: the annealer started (new_with_decomp) from every 11th tree random_decomp can produce, one iteration, every draw enumerated, adaptive cooling on/off: result valid and no wider than the start", masks.len()), false, Some("stride over graph classes (2) and trees (11)".into()), t0, stats);
     }
+    // score/width disagreement: 8-vertex graphs, every cubic tree
+    {
+        let t0 = Instant::now();
+        let n = 8usize;
+        let trees = all_trees(n);
+        let graphs = disagreement_graphs();
+        let graphs: Vec<_> = if quick { graphs.into_iter().take(1).collect() } else { graphs };
+        let stride = if quick { 8 } else { 1 };
+        // chunks of trees in parallel
+        let chunks: Vec<(usize, Vec<DecompTree>)> = graphs.iter().enumerate().flat_map(|(gi, _)| {
+            let sel: Vec<DecompTree> = trees.iter().step_by(stride).cloned().collect();
+            sel.chunks(200).map(|c| (gi, c.to_vec())).collect::<Vec<_>>()
+        }).collect();
+        let results: Vec<Stats> = chunks
+            .par_iter()
+            .map(|(gi, ts)| {
+                let mut st = Stats::default();
+                explore_annealer_disagreement(&mut st, n, &graphs[*gi].1, ts, 1, 4);
+                st
+            })
+            .collect();
+        let stats = results.into_iter().fold(Stats::default(), Stats::merge);
+        rep.absorb("annealer where score and width disagree", &format!("{} graphs on 8 vertices ({}), {} cubic trees each: every single move from every tree is scanned for 'score down, width up'; from such trees (at most 4 per block of 200) the annealer runs one iteration with every draw enumerated, adaptive cooling on/off: result valid and no wider than the start", graphs.len(), graphs.iter().map(|g| g.0).collect::<Vec<_>>().join(", "), trees.len() / stride), false, Some(format!("tree stride {}; at most 4 start states per block of 200 trees", stride)), t0, stats);
+    }
     rep.absorb("annealer", &format!("RankwidthAnnealer::new(..).run() on every graph class with 2..4 vertices (edgeless included) x adaptive cooling on/off x initial temperature {{5, 0.5}}, {} iterations (one less on 4 vertices), every draw enumerated", iters), true, None, t0, stats);
 }
 
@@ -559,6 +763,33 @@ pub fn replay(w: &Value) -> Option<Violation> {
         let mut st = Stats::default();
         explore_annealer_from_all(&mut st, n, &edges, w["iterations"].as_u64()? as usize, 1);
         return st.viols.into_values().next().map(|(_, v)| v);
+    }
+    if w["kind"] == "annealer-tree" {
+        let trees = all_trees(n);
+        let t0 = trees.get(w["tree_index"].as_u64()? as usize)?.clone();
+        let (w0, _, _) = analyse(&t0, n, &edges).ok()?;
+        println!("start tree {:?} (width {})", t0.nodes, w0);
+        begin(&sc(&w["script"]), 24);
+        let (iterations, adaptive) = (w["iterations"].as_u64()? as usize, w["adaptive"].as_bool()?);
+        let out = guarded(|| {
+            let mut a = RankwidthAnnealer::new_with_decomp(g.clone(), t0.clone(), ScriptedRng);
+            a.set_iterations(iterations).set_adaptive_cooling(adaptive);
+            a.run()
+        });
+        return match out {
+            Err(p) => Some(Violation { sig: format!("annealer-from|panic|{}", site_of(&p)), detail: p, witness: w.clone() }),
+            Ok(out) => match analyse(&out, n, &edges) {
+                Err(e) => Some(Violation { sig: "annealer-from|invalid-result".into(), detail: e, witness: w.clone() }),
+                Ok((width, _, _)) => {
+                    println!("returned tree {:?} (width {})", out.nodes, width);
+                    if width > w0 {
+                        Some(Violation { sig: "annealer-from|wider-than-start".into(), detail: format!("start width {}, result width {}", w0, width), witness: w.clone() })
+                    } else {
+                        None
+                    }
+                }
+            },
+        };
     }
     if w["kind"] == "annealer" {
         let mut st = Stats::default();
